@@ -482,6 +482,29 @@ def ckey_history(rng):
     return finish(m, lines, None)
 
 
+def serp_history(rng):
+    """a double node with a user-installed serializer (one of the library's own public serializer functions) and a
+    delete callback: changing its value any number of times runs no callback and drops nothing; the callback runs
+    exactly once, when the node goes"""
+    m = Mirror()
+    lines = []
+    def do(l):
+        lines.append(l); m.apply(l)
+    do("newd")
+    extra = rng.randrange(0, 3)
+    for _ in range(extra):
+        do("get 0")
+    do("%s 0 %d" % (rng.choice(["setserp", "setserp", "setser", "setud"]), rng.randrange(1, 9)))
+    for _ in range(rng.randrange(1, 4)):
+        do("setd 0")
+        if rng.chance(0.3):
+            do("get 0"); do("put 0")
+    if rng.chance(0.5):
+        do("newa"); do("aadd 1 0")
+        do("setd 0")
+    return finish(m, lines, None)
+
+
 A, B, K = hx("a"), hx("b"), hx("k1")
 SCENARIOS = [
     # replace the same key twice
@@ -591,6 +614,8 @@ def gen(rng, tier):
         yield {"lines": gen_history(rng, rng.choice([4, 10, 25, 50, 80]))}
     for i in range(12 if tier == "quick" else 120):
         yield {"lines": ckey_history(rng)}
+    for i in range(20 if tier == "quick" else 200):
+        yield {"lines": serp_history(rng)}
     yield from enumerate_small(4 if tier == "quick" else 5)
 
 
